@@ -7298,40 +7298,61 @@ fn eval_break(env: &mut Env, expr_value_is_used: bool) {
     // Pop all the currently evaluating expressions until we are no
     // longer inside the innermost loop.
     while let Some((expr_state, expr)) = env.current_frame_mut().exprs_to_eval.pop() {
-        match &expr.expr_ {
-            Expression_::While(_, _) => {
-                env.current_frame_mut()
-                    .exprs_to_eval
-                    .push((ExpressionState::EvaluatedSubexpressions, Rc::clone(&expr)));
+        let is_for = matches!(expr.expr_, Expression_::ForIn(_, _, _));
+        let is_loop = is_for || matches!(expr.expr_, Expression_::While(_, _));
 
-                break;
+        match expr_state {
+            ExpressionState::NotEvaluated => {
+                // A later expression in a block that we never
+                // started evaluating, nothing to clean up.
             }
-            Expression_::ForIn(_, _, _) => {
-                // We're exiting the loop early, we need to follow the
-                // pattern of `eval_for_in` and maintain stack
-                // discipline for values pushed for the loop body.
-                env.pop_value()
-                    .expect("Value used by `for` should be present");
-                env.pop_value()
-                    .expect("Index used by `for` should be present");
+            ExpressionState::PartiallyEvaluated(block_state) if is_loop => {
+                // The innermost loop that is currently running.
+                let in_body = matches!(block_state, BlockState::DoneRunBlock);
 
-                env.current_frame_mut()
-                    .exprs_to_eval
-                    .push((ExpressionState::EvaluatedSubexpressions, Rc::clone(&expr)));
+                if is_for {
+                    // We're exiting the loop early, we need to follow
+                    // the pattern of `eval_for_in` and maintain stack
+                    // discipline for the values pushed for the loop.
+                    if in_body {
+                        env.pop_value()
+                            .expect("Value used by `for` should be present");
+                    }
+                    env.pop_value()
+                        .expect("Index used by `for` should be present");
 
-                break;
-            }
-            _ => {
-                // We're exiting a block that wasn't part of a loop
-                // (i.e. a match case or an if/else block), so we
-                // should pop the bindings block here too.
-                if matches!(
-                    expr_state,
-                    ExpressionState::PartiallyEvaluated(BlockState::DoneRunBlock)
-                ) {
+                    // The EvaluatedSubexpressions step of `for` pops a
+                    // bindings block. In the loop body that's the
+                    // body's block, otherwise we need to supply one.
+                    if !in_body {
+                        env.push_binding_block();
+                    }
+                } else if in_body {
+                    // Leave the bindings block of the `while` body.
                     env.current_frame_mut().bindings.pop_block();
                 }
 
+                env.current_frame_mut()
+                    .exprs_to_eval
+                    .push((ExpressionState::EvaluatedSubexpressions, expr));
+                break;
+            }
+            ExpressionState::EvaluatedSubexpressions
+                if is_for
+                    || matches!(
+                        expr.expr_,
+                        Expression_::If(_, _, _)
+                            | Expression_::Match(_, _)
+                            | Expression_::Try(_, _, _)
+                    ) =>
+            {
+                // We're exiting a block that wasn't the loop body
+                // (i.e. a match case, an if/else block or a try
+                // block), so we should pop its bindings block here
+                // too.
+                env.current_frame_mut().bindings.pop_block();
+            }
+            _ => {
                 // TODO: this needs to clean up any items pushed to the value stack.
                 // E.g. in `1 + break`.
             }
@@ -7346,17 +7367,45 @@ fn eval_break(env: &mut Env, expr_value_is_used: bool) {
 
 fn eval_continue(env: &mut Env) {
     // Pop all the currently evaluating expressions until we are back
-    // at the loop.
+    // at the innermost loop whose body we are in.
     while let Some((expr_state, expr)) = env.current_frame_mut().exprs_to_eval.pop() {
-        if matches!(
-            expr.expr_,
-            Expression_::While(_, _) | Expression_::ForIn(_, _, _)
-        ) {
-            // TODO: this needs to clean up any items pushed to the value stack.
-            // E.g. in `1 + continue`.
+        let is_for = matches!(expr.expr_, Expression_::ForIn(_, _, _));
+        let is_loop = is_for || matches!(expr.expr_, Expression_::While(_, _));
 
-            env.push_expr_to_eval(expr_state, expr);
-            break;
+        match expr_state {
+            ExpressionState::NotEvaluated => {
+                // A later expression in a block that we never
+                // started evaluating, nothing to clean up.
+            }
+            ExpressionState::PartiallyEvaluated(BlockState::DoneRunBlock) if is_loop => {
+                // TODO: this needs to clean up any items pushed to the value stack.
+                // E.g. in `1 + continue`.
+
+                env.push_expr_to_eval(expr_state, expr);
+                break;
+            }
+            ExpressionState::PartiallyEvaluated(_) if is_for => {
+                // `continue` inside the iterated expression of a
+                // `for` belongs to the enclosing loop. Discard the
+                // index that was pushed for this loop.
+                env.pop_value()
+                    .expect("Index used by `for` should be present");
+            }
+            ExpressionState::EvaluatedSubexpressions
+                if is_for
+                    || matches!(
+                        expr.expr_,
+                        Expression_::If(_, _, _)
+                            | Expression_::Match(_, _)
+                            | Expression_::Try(_, _, _)
+                    ) =>
+            {
+                // We're leaving an if/else block, a match case or a
+                // try block inside the loop body, so pop its
+                // bindings block.
+                env.current_frame_mut().bindings.pop_block();
+            }
+            _ => {}
         }
     }
 }
